@@ -298,8 +298,9 @@ func runEngineInner(c Case, o *vt.Obs, oddSeen *int) *vt.Failure {
 		case "create":
 			t, err := e.CreateTable(a.Name)
 			if exists {
-				if !errors.Is(err, serrors.ErrTableExists) {
-					return vt.Failf(prop+"/duplicate-create-accepted", i, "create of existing table %q: %v (id %d)", a.Name, err, t.ClusterID)
+				// "succeeds only if no table of that name exists": WHICH error refuses it is not stated
+				if err == nil {
+					return vt.Failf(prop+"/duplicate-create-accepted", i, "create of existing table %q succeeded (id %d)", a.Name, t.ClusterID)
 				}
 				continue
 			}
@@ -329,8 +330,9 @@ func runEngineInner(c Case, o *vt.Obs, oddSeen *int) *vt.Failure {
 		case "delete":
 			err := e.DeleteTable(a.Name)
 			if !exists {
-				if !errors.Is(err, serrors.ErrTableNotFound) {
-					return vt.Failf(prop+"/delete-of-absent-table", i, "delete of absent table %q: %v", a.Name, err)
+				// "deleting succeeds only if it exists": WHICH error refuses it is not stated
+				if err == nil {
+					return vt.Failf(prop+"/delete-of-absent-table", i, "delete of absent table %q succeeded", a.Name)
 				}
 				continue
 			}
@@ -464,6 +466,9 @@ func runEngineInner(c Case, o *vt.Obs, oddSeen *int) *vt.Failure {
 			}
 			cleanups++
 			cleanupsSinceRestart++
+			// let the raft events of the removal drain: closing an engine while one of its events is still being dispatched can hang
+			// regatta's shutdown for good (an observation outside the listed properties, see DESIGN section 5) - that costs the case and 90 s
+			time.Sleep(400 * time.Millisecond)
 			if f := checkAll(i, "/table-damaged-by-cleanup", "after a cleanup round"); f != nil {
 				return f
 			}
@@ -490,16 +495,17 @@ func runEngineInner(c Case, o *vt.Obs, oddSeen *int) *vt.Failure {
 				if err != nil || t.ClusterID != cat[a.Name].id || t.Name != a.Name {
 					return vt.Failf(prop+"/lookup-differs", i, "lookup of %q: %+v, %v; want id %d", a.Name, t.Table, err, cat[a.Name].id)
 				}
-			} else if !errors.Is(err, serrors.ErrTableNotFound) {
-				return vt.Failf(prop+"/lookup-differs", i, "lookup of absent table %q: %+v, %v", a.Name, t.Table, err)
+			} else if err == nil {
+				// "lookup reflects precisely the created-and-not-deleted tables": an absent table is not found - by whichever error
+				return vt.Failf(prop+"/lookup-differs", i, "lookup of absent table %q succeeded: %+v", a.Name, t.Table)
 			}
 		case "put":
 			ctx, cancel := ctxT()
 			_, err := e.Put(ctx, &regattapb.PutRequest{Table: []byte(a.Name), Key: a.K, Value: a.V})
 			cancel()
 			if !exists {
-				if !errors.Is(err, serrors.ErrTableNotFound) {
-					return vt.Failf(prop+"/write-to-absent-table", i, "put into absent table %q: %v", a.Name, err)
+				if err == nil {
+					return vt.Failf(prop+"/write-to-absent-table", i, "put into absent table %q succeeded", a.Name)
 				}
 				continue
 			}
@@ -514,8 +520,8 @@ func runEngineInner(c Case, o *vt.Obs, oddSeen *int) *vt.Failure {
 		case "range":
 			got, err := replfx.ReadAll(e, a.Name, true)
 			if !exists {
-				if !errors.Is(err, serrors.ErrTableNotFound) {
-					return vt.Failf(prop+"/read-of-absent-table", i, "range on absent table %q: %v (%d pairs)", a.Name, err, len(got))
+				if err == nil {
+					return vt.Failf(prop+"/read-of-absent-table", i, "range on absent table %q succeeded (%d pairs)", a.Name, len(got))
 				}
 				continue
 			}
